@@ -1526,3 +1526,162 @@ Proof.
 Qed.
 
 End Errors.
+
+(* ------------------------------------------------------------------------------------------ *)
+(** * The statements of Properties/C09.v                                                        *)
+
+Section Statements.
+Variable is_word_char : Z -> bool.
+Variable is_ecma_start : Z -> bool.
+Variable is_ecma_char : Z -> bool.
+
+Notation new_replacer_data := (Replace.new_replacer_data is_word_char is_ecma_start is_ecma_char).
+Notation replace_string := (Replace.replace_string is_word_char is_ecma_start is_ecma_char).
+Notation rep_spec := (rep_spec is_word_char is_ecma_start is_ecma_char).
+
+Lemma thm_replace_fold (rtl : bool) :
+  forall env n rep d tw startAt count ms,
+    env_ok env n -> -1 <= count -> start_ok tw startAt ->
+    wf_matches rtl (runes_of tw) ms -> Forall (fun m => group_count m = n) ms ->
+    new_replacer_data env rep = Ok d ->
+    exists toks, toks_of d = Some toks /\
+      replace_string env rtl rep tw startAt count ms = Ok (replace_spec rtl ms toks count (runes_of tw)).
+Proof. intros. eapply replace_string_fold; eassumption. Qed.
+
+Lemma thm_replace_parse_error :
+  forall env rtl rep c tw startAt count ms,
+    new_replacer_data env rep = Err c -> replace_string env rtl rep tw startAt count ms = Err c.
+Proof. intros. apply replace_string_error. assumption. Qed.
+
+Lemma thm_replace_amp_identity :
+  forall env n rtl tw startAt count ms,
+    env_ok env n -> -1 <= count -> start_ok tw startAt ->
+    wf_matches rtl (runes_of tw) ms -> Forall group0_ok ms ->
+    replace_string env rtl [36; 38] tw startAt count ms = Ok (runes_of tw).
+Proof. intros. eapply replace_string_amp; eassumption. Qed.
+
+Lemma thm_parser_spec_partial :
+  forall env n rep d,
+    env_ok env n -> new_replacer_data env rep = Ok d ->
+    (use_e env = true -> ~ In 92 rep) ->
+    exists items, rep_spec env rep items /\ toks_of d = Some (compile_items env items []).
+Proof.
+  intros env n rep d Henv Hd Hbs.
+  destruct (new_replacer_data_spec _ _ _ env n Henv rep d Hd) as (_ & toks & Ht & Hg).
+  destruct (Hg Hbs) as (items & Hr & ->). exists items. split; assumption.
+Qed.
+
+Lemma thm_replacer_data_ok :
+  forall env n rep d,
+    env_ok env n -> new_replacer_data env rep = Ok d ->
+    data_ok d n /\ exists toks, toks_of d = Some toks.
+Proof.
+  intros env n rep d Henv Hd.
+  destruct (new_replacer_data_spec _ _ _ env n Henv rep d Hd) as (Hok & toks & Ht & _).
+  split; [exact Hok|]. exists toks. exact Ht.
+Qed.
+
+Lemma thm_no_panic :
+  forall env rep, match new_replacer_data env rep with
+                  | Ok _ | Err _ => True
+                  | Crash _ | Fuel => False
+                  end.
+Proof. intros env rep. exact (new_replacer_data_good is_word_char is_ecma_start is_ecma_char env rep). Qed.
+
+Lemma thm_error_codes :
+  forall env rep c,
+    new_replacer_data env rep = Err c ->
+    c = E_CapOutOfRange \/
+    (use_e env = true /\ (c = E_InvalidECMAName \/ c = E_TooFewHex \/ c = E_InvalidHex \/ c = E_MissingBrace)).
+Proof. intros env rep c H. exact (new_replacer_data_err _ _ _ env rep c H). Qed.
+
+End Statements.
+
+Lemma thm_replace_func_fold :
+  forall rtl f tw startAt count ms,
+    -1 <= count -> start_ok tw startAt -> wf_matches rtl (runes_of tw) ms ->
+    replace rtl (ByEval f) tw startAt count ms = Ok (replace_spec_f rtl ms f count (runes_of tw)).
+Proof.
+  intros rtl f tw startAt count ms Hc (H1 & H2) Hwf. apply replace_func_fold; try assumption.
+  apply check_start_ok; assumption.
+Qed.
+
+Lemma thm_replace_func_eq_replace :
+  forall rtl d toks n f tw startAt count ms,
+    -1 <= count -> start_ok tw startAt ->
+    wf_matches rtl (runes_of tw) ms -> Forall (fun m => group_count m = n) ms ->
+    data_ok d n -> toks_of d = Some toks ->
+    (forall m, In m ms -> f m = expand toks m (runes_of tw)) ->
+    replace rtl (ByEval f) tw startAt count ms = replace rtl (ByData d) tw startAt count ms.
+Proof.
+  intros rtl d toks n f tw startAt count ms Hc (H1 & H2). intros.
+  eapply replace_func_eq_replace; eauto. apply check_start_ok; assumption.
+Qed.
+
+Lemma thm_expand_refs :
+  forall d toks text m,
+    wf_match (zlen text) m -> data_ok d (group_count m) -> toks_of d = Some toks ->
+    (forall buf, replacement_impl d text m buf = Ok (buf ++ expand toks m text)) /\
+    (forall al, exists pieces, replacement_impl_rtl d text m al = Ok (al ++ pieces) /\
+                               concat (rev pieces) = expand toks m text).
+Proof.
+  intros d toks text m Hwf Hd Ht. split.
+  - intros buf. apply replacement_impl_ok; assumption.
+  - intros al. exists (rev (map (tok_text m text) toks)). split.
+    + apply replacement_impl_rtl_ok; assumption.
+    + rewrite rev_involutive. reflexivity.
+Qed.
+
+Lemma thm_expand_meaning :
+  forall m text,
+    (forall s, expand [TLit s] m text = s) /\
+    (forall k caps i l, znth (m_groups m) k = Some caps -> last_opt caps = Some (i, l) ->
+                        expand [TGroup k] m text = zslice text i (i + l)) /\
+    (forall k caps, znth (m_groups m) k = Some caps -> caps = [] -> expand [TGroup k] m text = []) /\
+    (m_groups m <> [] -> expand [TLast] m text = expand [TGroup (group_count m - 1)] m text) /\
+    expand [TLeft] m text = firstn (Z.to_nat (m_index m)) text /\
+    expand [TRight] m text = skipn (Z.to_nat (m_index m + m_length m)) text /\
+    expand [TWhole] m text = text /\
+    (forall a b, expand (a ++ b) m text = expand a m text ++ expand b m text).
+Proof.
+  intros m text. unfold expand. cbn [map concat tok_text].
+  repeat split; intros; try (rewrite app_nil_r; reflexivity).
+  - rewrite H. unfold cap_text. rewrite H0. apply app_nil_r.
+  - rewrite H. subst caps. reflexivity.
+  - unfold group_count. rewrite znth_last by assumption. reflexivity.
+  - rewrite map_app, concat_app. reflexivity.
+Qed.
+
+Lemma thm_split_count :
+  forall rtl tw ms,
+    (forall count, count < -1 -> split rtl tw count ms = Err E_CountTooSmall) /\
+    split rtl tw 0 ms = Ok [] /\
+    split rtl tw 1 ms = Ok [runes_of tw] /\
+    (zlen ms <= maxint -> split_processed (-1) ms = ms).
+Proof.
+  intros rtl tw ms. repeat split.
+  - intros count H. apply split_count_too_small. exact H.
+  - apply split_processed_all.
+Qed.
+
+(* the pre-fix loops on the defect witnesses *)
+Definition w_a1b2 : list (Z * Z) := [(97, 1); (49, 1); (98, 1); (50, 1)].          (* "a1b2" *)
+Definition w_rtl_ms : list mtch := [mkM 3 1 [[(3, 1)]]; mkM 1 1 [[(1, 1)]]].       (* \d, RightToLeft *)
+Definition w_angle : rdata := mkRD [[60]; [62]] [0; -5; 1].                         (* "<$&>" *)
+
+Lemma thm_unfixed_replace_rtl :
+  replace_rtl_unfixed w_angle w_a1b2 (-1) w_rtl_ms = Ok [97; 62; 49; 60; 98; 62; 50; 60] /\
+  replace_spec true w_rtl_ms [TLit [60]; TGroup 0; TLit [62]] (-1) (runes_of w_a1b2)
+    = [97; 60; 49; 62; 98; 60; 50; 62] /\
+  replace true (ByData w_angle) w_a1b2 (-1) (-1) w_rtl_ms = Ok [97; 60; 49; 62; 98; 60; 50; 62].
+Proof. vm_compute. repeat split; reflexivity. Qed.
+
+Lemma thm_unfixed_split_rtl :
+  split_unfixed w_a1b2 (-1) w_rtl_ms = Crash C_slice /\
+  split true w_a1b2 (-1) w_rtl_ms = Ok [[97]; [98]; []].
+Proof. vm_compute. split; reflexivity. Qed.
+
+Lemma thm_unfixed_count0 :
+  replace_count0_unfixed = Ok [] /\
+  replace false (ByData w_angle) w_a1b2 (-1) 0 [] = Ok (runes_of w_a1b2) /\ runes_of w_a1b2 <> [].
+Proof. vm_compute. repeat split; try reflexivity. discriminate. Qed.
